@@ -534,7 +534,14 @@ def sibling_reference_sites(ck, rule):
     cls = mod.classes.get("MementoFunctionBase")
     ck.need(cls is not None, "base.MementoFunctionBase not found")
     n_sites = 0
-    for name, m in cls.methods.items():
+    methods = list(cls.methods.items())
+    # private helpers of the class that the front end took out of the tables although a call it could not write out
+    # (inside a comprehension) remains: the construction they contain is still a site
+    for fi in getattr(getattr(ck.repo, "inliner", None), "new", None) or []:
+        if fi.qual.startswith(cls.qual + ".") and fi.name not in cls.methods and fi.parent is None \
+                and any(isinstance(n, ast.Call) and A.call_attr(n) == fi.name for mm in cls.methods.values() for n in A.walk_body(mm.node)):
+            methods.append((fi.name, fi))
+    for name, m in methods:
         fa = FA(ck, m)
         ctors = [c for c in fa.calls("FunctionReferenceWithArguments")] + [c for c in fa.calls("with_args")]
         for c in ctors:
@@ -997,25 +1004,34 @@ def check(ck):
     oku = False
     # where one entry of an object's __dict__ is set: (statement, object, key expr, value expr) —
     # obj.__dict__[k] = v / obj.__dict__.update({k: v}) / obj.__dict__.__setitem__(k, v) / object.__setattr__(obj, k, v)
+    def dict_of(e):
+        """the object whose attribute dictionary `e` is: X.__dict__ / vars(X); else None"""
+        e = strip_cast(e)
+        if isinstance(e, ast.Attribute) and e.attr == "__dict__":
+            return e.value
+        if isinstance(e, ast.Call) and isinstance(e.func, ast.Name) and e.func.id == "vars" and len(e.args) == 1 and not e.keywords:
+            return e.args[0]
+        return None
+
     sets = []
     for s in ru.stmts((ast.Assign, ast.Expr)):
         if not ru.nodes(s):
             continue
         if isinstance(s, ast.Assign):
             for t in s.targets:
-                if isinstance(t, ast.Subscript) and isinstance(t.value, ast.Attribute) and t.value.attr == "__dict__":
-                    sets.append((s, t.value.value, t.slice, s.value))
+                if isinstance(t, ast.Subscript) and dict_of(t.value) is not None:
+                    sets.append((s, dict_of(t.value), t.slice, s.value))
             continue
         c = s.value
         if not isinstance(c, ast.Call):
             continue
         recv = A.call_recv(c)
-        on_dict = isinstance(recv, ast.Attribute) and recv.attr == "__dict__"
-        if on_dict and A.call_attr(c) == "update" and len(c.args) == 1 and not c.keywords and isinstance(c.args[0], ast.Dict) \
-                and len(c.args[0].keys) == 1 and c.args[0].keys[0] is not None and A.norm(recv.value) != "self":
-            sets.append((s, recv.value, c.args[0].keys[0], c.args[0].values[0]))
-        elif on_dict and A.call_attr(c) == "__setitem__" and len(c.args) == 2:
-            sets.append((s, recv.value, c.args[0], c.args[1]))
+        owner = dict_of(recv) if recv is not None else None
+        if owner is not None and A.call_attr(c) == "update" and len(c.args) == 1 and not c.keywords and isinstance(c.args[0], ast.Dict) \
+                and len(c.args[0].keys) == 1 and c.args[0].keys[0] is not None and A.norm(owner) != "self":
+            sets.append((s, owner, c.args[0].keys[0], c.args[0].values[0]))
+        elif owner is not None and A.call_attr(c) == "__setitem__" and len(c.args) == 2:
+            sets.append((s, owner, c.args[0], c.args[1]))
         elif A.norm(c.func) == "object.__setattr__" and len(c.args) == 3:
             sets.append((s, c.args[0], c.args[1], c.args[2]))
     if len(sets) == 1 and len(rp) >= 3:
@@ -1026,11 +1042,15 @@ def check(ck):
             and A.root_name(o_expr) != "self"
         if oku:
             mk = strip_cast(obj.value)
-            copied = (A.call_attr(mk) in ("copy", "deepcopy") and "self" in A.names_in(mk)) or \
-                any(A.call_attr(c_) == "update" and A.norm(c_.args[0] if c_.args else None) == "self.__dict__" and ru.nodes(c_)
-                    and same_def(origin(ru, A.call_recv(c_).value, ru.nodes(c_)[0]) if isinstance(A.call_recv(c_), ast.Attribute) else None, obj)
-                    and at in ru.cfg.reach(ru.nodes(c_), include_start=False)
-                    for c_ in ru.calls("update"))
+
+            def pours_self_in(c_):
+                # <the new object's dict>.update(<self's dict>), before the entry is set
+                owner_ = dict_of(A.call_recv(c_)) if A.call_recv(c_) is not None else None
+                src_ = dict_of(c_.args[0]) if len(c_.args) == 1 and not c_.keywords else None
+                return owner_ is not None and src_ is not None and A.norm(src_) == "self" and bool(ru.nodes(c_)) \
+                    and same_def(origin(ru, owner_, ru.nodes(c_)[0]), obj) and at in ru.cfg.reach(ru.nodes(c_), include_start=False)
+
+            copied = (A.call_attr(mk) in ("copy", "deepcopy") and "self" in A.names_in(mk)) or any(pours_self_in(c_) for c_ in ru.calls("update"))
             rets = ru.returns()
             oku = copied and bool(rets) and all(r.value is not None and same_def(origin(ru, r.value, ru.nodes(r)[0]), obj) for r in rets if ru.nodes(r))
     ck.ob(R2, ru.key(None, "replace"), oku, "update() replaces the field on a copy" if oku else
